@@ -5,8 +5,8 @@ import py_checks
 import runner_props
 
 PROP = "C14"
-LEAN_MODULES = ["PamsProps.C14"]
-NAMESPACES = ["Pams.C14"]
+LEAN_MODULES = ["PamsProps.C14", "PamsProps.SrcHookReg"]
+NAMESPACES = ["Pams.C14", "Pams.C14"]
 DRIVERS = ["Events", "Runner", "Sim", "PyRun"]
 TRUSTED = [
     "arithmetic theorems are over ordered fields; the same Lean definitions are evaluated at Float and compared with Python bit-for-bit (tolerance 1e-12 only where noted)",
